@@ -1,4 +1,595 @@
+//! C08 — blending and compositing follow the W3C formulas and the Porter-Duff identities.
+//!
+//! palette: `self` is the *source* (top layer), `other` the *backdrop/destination*
+//! (`blend_separable(src = self, dst = other, ..)`, docs of `Blend::overlay`/`dodge`, and
+//! `BlendWith::blend_with(self, destination, ..)`): W3C B(cb, cs) = palette blend(src = cs, dst = cb).
+//!
+//! Sub-checks (all exhaustive over the stated lattice products, E1 of DESIGN §3.1):
+//!  component/<float>   (cs, cb, αs, αb) ∈ L⁴ × 11 modes × 6 operators × {C, Alpha<C>, PreAlpha<C>} × types
+//!  colour/<float>      all ordered pairs of a colour lattice (K³ × alphas): slot independence
+//!  identity/<float>    transparent-over, opaque-over (exact), symmetry of the commutative ones
+//!  premultiply/<float> premultiply → unpremultiply through every public route
+//!  blend-with/<float>  BlendWith with a closure and with every Equations configuration
+mod checks;
+mod oracle;
+mod subject;
+
+use checks::*;
+use pv::fl::Fl;
+use pv::{json, Collector, Ctx, Mode, Tier, Value};
+use subject::*;
+
+/// Component lattice: ¼ and ½ are the soft-light / overlay / hard-light knees, 0 and 1 the
+/// dodge/burn guards (blend/blend.rs:389-391, 404-406, 419, 437, 445).
+fn lattice<T: Fl>(tier: Tier) -> Vec<T> {
+    let (q, h, one) = (T::from64(0.25), T::from64(0.5), T::from64(1.0));
+    let mut v = vec![T::from64(0.0), T::from64(1e-9), T::from64(0.125), q.down(), q, q.up(), T::from64(0.375), h.down(), h, h.up(), T::from64(0.75), one.down(), one];
+    if tier == Tier::Thorough {
+        v.extend([T::from64(1e-3), T::from64(0.0625), T::from64(0.625), T::from64(0.875)]);
+    }
+    pv::lattice::dedup(v)
+}
+fn small_lattice<T: Fl>() -> Vec<T> {
+    pv::lattice::dedup(vec![T::from64(0.0), T::from64(1e-9), T::from64(0.25), T::from64(0.5), T::from64(0.75), T::from64(1.0).down(), T::from64(1.0)])
+}
+
+fn nontrivial4<T: Fl>(v: [T; 4]) -> bool {
+    v.iter().any(|x| x.to64() != 0.0 && x.to64() != 1.0)
+}
+
+/// All (source, backdrop) tuples of the component level for one form, simplest first.
+fn tuples<T: Fl>(lat: &[T], form: Form) -> Vec<(Px<T>, Px<T>)> {
+    let one = T::from64(1.0);
+    let mut out = vec![];
+    match form {
+        Form::Opaque => {
+            for &cs in lat {
+                for &cb in lat {
+                    out.push((Px::grey(cs, one), Px::grey(cb, one)));
+                }
+            }
+        }
+        _ => {
+            for &cs in lat {
+                for &cb in lat {
+                    for &sa in lat {
+                        for &da in lat {
+                            if form == Form::Pre && (cs.to64() > sa.to64() || cb.to64() > da.to64()) {
+                                continue; // not a premultiplied colour
+                            }
+                            out.push((Px::grey(cs, sa), Px::grey(cb, da)));
+                        }
+                    }
+                }
+            }
+        }
+    }
+    out
+}
+
+fn run_component<T: Fl>(ctx: &Ctx, specs: &[Spec<T>], total: &mut Collector) {
+    let sub = format!("component/{}", T::NAME);
+    if !ctx.wants(&sub) {
+        return;
+    }
+    let lat = lattice::<T>(ctx.tier);
+    let tup: Vec<Vec<(Px<T>, Px<T>)>> = FORMS.iter().map(|f| tuples(&lat, *f)).collect();
+    let mut jobs = vec![];
+    for (si, sp) in specs.iter().enumerate() {
+        for (fi, _) in FORMS.iter().enumerate() {
+            for (oi, op) in sp.ops().into_iter().enumerate() {
+                jobs.push((si, fi, oi, op));
+            }
+        }
+    }
+    let (jobs_r, tup_r, sub_r) = (&jobs, &tup, &sub);
+    let cc = pv::par::run_chunks(jobs.len(), |j, c| {
+        let (si, fi, oi, op) = jobs_r[j];
+        let sp = &specs[si];
+        let mut l = Local::default();
+        let mut nt = 0u64;
+        for &(s, d) in &tup_r[fi] {
+            check_pair(sp, "component", sub_r, FORMS[fi], op, s, d, c, &mut l, ctx.seed);
+            if nontrivial4([s.c[0], d.c[0], s.a, d.a]) {
+                nt += 1;
+            }
+        }
+        // a state = one input tuple of one (type, form); counted once, not per operation
+        let (st, nt) = if oi == 0 { (tup_r[fi].len() as u64, nt) } else { (0, 0) };
+        c.add(sub_r, st, l.trans, l.traces, nt);
+    });
+    total.merge(cc);
+    total.exhaustive(&sub, true, &format!("(cs, cb, αs, αb) ∈ L⁴, |L| = {} (0, 1e-9, the knees ¼ and ½ with both ulp neighbours, 1−ulp, 1, eighths{}): {} tuples for Alpha<C>, {} with c ≤ α for PreAlpha<C>, {} (cs, cb) pairs for opaque C; × 11 modes + 6 operators × {} colour types ({} compose-only)", lat.len(), if ctx.tier == Tier::Thorough { ", 1e-3, sixteenth" } else { "" }, tup[1].len(), tup[2].len(), tup[0].len(), specs.len(), specs.iter().filter(|s| s.blend.is_none()).count()));
+}
+
+/// Colour lattice (straight colours with alpha); premultiplied exactly for the Pre form.
+fn colours<T: Fl>(tier: Tier, n: usize) -> Vec<Px<T>> {
+    let k: Vec<f64> = tier.pick(vec![0.0, 0.375, 0.75, 1.0], vec![0.0, 0.25, 0.5, 0.75, 1.0]);
+    let al: Vec<f64> = tier.pick(vec![0.0, 0.5, 1.0], vec![0.0, 0.25, 0.75, 1.0]);
+    let mut out = vec![];
+    let f = T::from64;
+    for &a in &al {
+        for &c0 in &k {
+            if n == 1 {
+                out.push(Px { c: [f(c0), f(0.0), f(0.0)], a: f(a) });
+                continue;
+            }
+            for &c1 in &k {
+                for &c2 in &k {
+                    out.push(Px { c: [f(c0), f(c1), f(c2)], a: f(a) });
+                }
+            }
+        }
+    }
+    out
+}
+
+fn run_colour<T: Fl>(ctx: &Ctx, specs: &[Spec<T>], total: &mut Collector) {
+    let sub = format!("colour/{}", T::NAME);
+    if !ctx.wants(&sub) {
+        return;
+    }
+    let cols3 = colours::<T>(ctx.tier, 3);
+    let mut jobs = vec![];
+    for (si, sp) in specs.iter().enumerate() {
+        if sp.n != 3 {
+            continue; // one-component types are completely covered by the component level
+        }
+        for (fi, _) in FORMS.iter().enumerate() {
+            for (oi, op) in sp.ops().into_iter().enumerate() {
+                jobs.push((si, fi, oi, op));
+            }
+        }
+    }
+    let (jobs_r, cols_r, sub_r) = (&jobs, &cols3, &sub);
+    let cc = pv::par::run_chunks(jobs.len(), |j, c| {
+        let (si, fi, oi, op) = jobs_r[j];
+        let sp = &specs[si];
+        let form = FORMS[fi];
+        let prep = |p: &Px<T>| -> Option<Px<T>> {
+            match form {
+                Form::Opaque => (p.a.to64() == 1.0).then_some(*p),
+                Form::Alpha => Some(*p),
+                Form::Pre => {
+                    let a = p.a.to64();
+                    Some(Px { c: [T::from64(p.c[0].to64() * a), T::from64(p.c[1].to64() * a), T::from64(p.c[2].to64() * a)], a: p.a })
+                }
+            }
+        };
+        // inputs of this form, without duplicates (alpha 0 premultiplies every colour to 0)
+        let mut seen = std::collections::BTreeSet::new();
+        let inputs: Vec<Px<T>> = cols_r.iter().filter_map(prep).filter(|p| seen.insert([p.c[0].bits64(), p.c[1].bits64(), p.c[2].bits64(), p.a.bits64()])).collect();
+        let mut l = Local::default();
+        let (mut st, mut nt) = (0u64, 0u64);
+        for &s in inputs.iter() {
+            for &d in inputs.iter() {
+                check_pair(sp, "colour", sub_r, form, op, s, d, c, &mut l, ctx.seed);
+                st += 1;
+                // non-trivial: the three slots do not all carry the same (cs, cb) pair
+                if !(s.c[0].bits64() == s.c[1].bits64() && s.c[1].bits64() == s.c[2].bits64() && d.c[0].bits64() == d.c[1].bits64() && d.c[1].bits64() == d.c[2].bits64()) {
+                    nt += 1;
+                }
+            }
+        }
+        let (st, nt) = if oi == 0 { (st, nt) } else { (0, 0) };
+        c.add(sub_r, st, l.trans, l.traces, nt);
+    });
+    total.merge(cc);
+    total.exhaustive(&sub, true, &format!("all ordered pairs of {} colours (K³ × alphas, K = {:?}, alphas = {:?}; premultiplied exactly for PreAlpha, alpha = 1 only for opaque C) × all modes/operators × 3 forms × every three-component type", cols3.len(), ctx.tier.pick(vec![0.0, 0.375, 0.75, 1.0], vec![0.0, 0.25, 0.5, 0.75, 1.0]), ctx.tier.pick(vec![0.0, 0.5, 1.0], vec![0.0, 0.25, 0.75, 1.0])));
+}
+
+fn run_identity<T: Fl>(ctx: &Ctx, specs: &[Spec<T>], total: &mut Collector) {
+    let sub = format!("identity/{}", T::NAME);
+    if !ctx.wants(&sub) {
+        return;
+    }
+    let lat = lattice::<T>(ctx.tier);
+    let pre = tuples(&lat, Form::Pre);
+    let straight = tuples(&lat, Form::Alpha);
+    let opaque = tuples(&lat, Form::Opaque);
+    // jobs: per spec: 0 = the two over-identities, 1.. = one commutative op each
+    let mut jobs = vec![];
+    for (si, sp) in specs.iter().enumerate() {
+        jobs.push((si, None));
+        for op in COMMUTATIVE {
+            if op.is_blend() && sp.blend.is_none() {
+                continue;
+            }
+            jobs.push((si, Some(op)));
+        }
+    }
+    let (jobs_r, sub_r) = (&jobs, &sub);
+    let cc = pv::par::run_chunks(jobs.len(), |j, c| {
+        let (si, op) = jobs_r[j];
+        let sp = &specs[si];
+        let mut l = Local::default();
+        let (mut st, mut nt) = (0u64, 0u64);
+        match op {
+            None => {
+                // every premultiplied backdrop (cb ≤ αb) / every premultiplied opaque source
+                let zero = T::from64(0.0);
+                for &cb in &lat {
+                    for &da in &lat {
+                        if cb.to64() > da.to64() {
+                            continue;
+                        }
+                        let d = Px::grey(cb, da);
+                        check_identity(sp, sub_r, "transparent-over", Form::Pre, Op::Over, Px::grey(zero, zero), d, c, &mut l);
+                        st += 1;
+                        nt += nontrivial4([zero, cb, zero, da]) as u64;
+                        for &cs in &lat {
+                            check_identity(sp, sub_r, "opaque-over", Form::Pre, Op::Over, Px::grey(cs, T::from64(1.0)), d, c, &mut l);
+                            st += 1;
+                            nt += nontrivial4([cs, cb, T::from64(1.0), da]) as u64;
+                        }
+                    }
+                }
+            }
+            Some(op) => {
+                for (form, tp) in [(Form::Pre, &pre), (Form::Alpha, &straight), (Form::Opaque, &opaque)] {
+                    for &(s, d) in tp.iter() {
+                        check_identity(sp, sub_r, "symmetry", form, op, s, d, c, &mut l);
+                        st += 1;
+                        nt += nontrivial4([s.c[0], d.c[0], s.a, d.a]) as u64;
+                    }
+                }
+            }
+        }
+        c.add(sub_r, st, l.trans, l.traces, nt);
+    });
+    total.merge(cc);
+    total.exhaustive(&sub, true, "PreAlpha: transparent source over every lattice backdrop (c ≤ α) returns it bit for bit; opaque source over every backdrop returns the source colour bit for bit (alpha to tol); s.op(d) vs d.op(s) for multiply, screen, darken, lighten, difference, exclusion, xor, plus over all component tuples in all three forms (bit-exact for xor/plus on PreAlpha, to tol in premultiplied terms otherwise)");
+}
+
+fn run_premul<T: Fl>(ctx: &Ctx, specs: &[Spec<T>], total: &mut Collector) {
+    let sub = format!("premultiply/{}", T::NAME);
+    if !ctx.wants(&sub) {
+        return;
+    }
+    let lat = lattice::<T>(ctx.tier);
+    let mut alphas = lat.clone();
+    alphas.push(min_pos::<T>()); // smallest alpha that is a valid divisor (is_normal)
+    let alphas = pv::lattice::dedup(alphas);
+    let (lat_r, al_r, sub_r) = (&lat, &alphas, &sub);
+    let cc = pv::par::run_chunks(specs.len(), |si, c| {
+        let sp = &specs[si];
+        let mut l = Local::default();
+        let (mut st, mut nt) = (0u64, 0u64);
+        for route in 0..PREMUL_ROUTES.len() {
+            for &cv in lat_r.iter() {
+                for &a in al_r.iter() {
+                    if route == 4 && a.to64() != 1.0 {
+                        continue;
+                    }
+                    check_premul(sp, sub_r, route, Px::grey(cv, a), c, &mut l);
+                    if route == 0 || route == 4 {
+                        st += 1;
+                        nt += (cv.to64() != 0.0 && a.to64() != 1.0) as u64;
+                    }
+                }
+            }
+        }
+        c.add(sub_r, st, l.trans, l.traces, nt);
+    });
+    total.merge(cc);
+    total.exhaustive(&sub, true, &format!("(c, α) ∈ L × (L ∪ {{MIN_POSITIVE}}) ({} × {}) through 4 public premultiply/unpremultiply routes, plus the opaque constructors; every colour type", lat.len(), alphas.len()));
+    // observation (no verdict): a subnormal alpha is not a "valid divisor" for palette
+    let sp = &specs[0];
+    let sn = T::from64(min_pos::<T>().to64() / 4.0);
+    if let Ok((_, back)) = pv::catch(|| (sp.premul)(0, Px::grey(T::from64(0.5), sn))) {
+        total.note(&format!("subnormal-alpha/{}", T::NAME), json!({"color": 0.5, "alpha": sn.to64(), "unpremultiply(premultiply)": back.c[0].to64(), "remark": "alpha below the normal range is treated like zero (num::IsValidDivisor = is_normal); outside the enumerated space (DESIGN §4 C08: normal alpha)"}));
+    }
+}
+
+fn bw_configs() -> Vec<Bw> {
+    use palette::blend::{Equation, Equations, Parameter};
+    let mut v = vec![Bw::Closure];
+    // (A) same settings for colour and alpha: every equation × every parameter pair; the
+    //     additive ones through the public constructor
+    for e in EQUATIONS {
+        for s in PARAMETERS {
+            for d in PARAMETERS {
+                v.push(Bw::Eq(if e == Equation::Add { Equations::from_parameters(s, d) } else { mk_eq(e, e, s, d, s, d) }));
+            }
+        }
+    }
+    // (B) every pair of colour/alpha equations through from_equations (all parameters One)
+    for ce in EQUATIONS {
+        for ae in EQUATIONS {
+            v.push(Bw::Eq(Equations::from_equations(ce, ae)));
+        }
+    }
+    // (C) colour and alpha parameters that differ (the two channels are independent)
+    for (i, s) in PARAMETERS.into_iter().enumerate() {
+        let s2 = PARAMETERS[(i + 3) % 10];
+        let d = PARAMETERS[(i + 5) % 10];
+        let d2 = PARAMETERS[(i + 7) % 10];
+        v.push(Bw::Eq(mk_eq(Equation::Add, Equation::Subtract, s, d, s2, d2)));
+        v.push(Bw::Eq(mk_eq(Equation::ReverseSubtract, Equation::Add, s2, d2, s, d)));
+    }
+    let _ = Parameter::One;
+    v
+}
+
+fn run_bw<T: Fl>(ctx: &Ctx, specs: &[Spec<T>], total: &mut Collector) {
+    let sub = format!("blend-with/{}", T::NAME);
+    if !ctx.wants(&sub) {
+        return;
+    }
+    let lat = if ctx.tier == Tier::Thorough { lattice::<T>(Tier::Quick) } else { small_lattice::<T>() };
+    let tup: Vec<Vec<(Px<T>, Px<T>)>> = FORMS.iter().map(|f| tuples(&lat, *f)).collect();
+    let cfgs = bw_configs();
+    let per = 16usize;
+    let mut jobs = vec![];
+    for (si, sp) in specs.iter().enumerate() {
+        if sp.bw.is_none() {
+            continue;
+        }
+        let mut i = 0;
+        while i < cfgs.len() {
+            jobs.push((si, i, (i + per).min(cfgs.len())));
+            i += per;
+        }
+    }
+    let (jobs_r, tup_r, cfg_r, sub_r) = (&jobs, &tup, &cfgs, &sub);
+    let cc = pv::par::run_chunks(jobs.len(), |j, c| {
+        let (si, lo, hi) = jobs_r[j];
+        let sp = &specs[si];
+        let mut l = Local::default();
+        let (mut st, mut nt) = (0u64, 0u64);
+        for ci in lo..hi {
+            for (fi, form) in FORMS.iter().enumerate() {
+                for &(s, d) in &tup_r[fi] {
+                    check_bw(sp, sub_r, *form, cfg_r[ci], s, d, c, &mut l);
+                    if ci == 0 {
+                        st += 1;
+                        nt += nontrivial4([s.c[0], d.c[0], s.a, d.a]) as u64;
+                    }
+                }
+            }
+        }
+        c.add(sub_r, st, l.trans, l.traces, nt);
+    });
+    total.merge(cc);
+    total.exhaustive(&sub, true, &format!("{} blend functions (closure 0.25·S + 0.5·D; 5 equations × 10 × 10 parameters with Add built by Equations::from_parameters; 25 Equations::from_equations pairs; 20 mixed colour/alpha settings) × component tuples over a {}-point lattice ({} Alpha, {} PreAlpha with c ≤ α, {} opaque) × the 5 Blend types", cfgs.len(), lat.len(), tup[1].len(), tup[2].len(), tup[0].len()));
+}
+
+/// Equations that spell out Porter-Duff operators / screen must agree with the W3C model too.
+fn presets() -> [(Op, palette::blend::Parameter, palette::blend::Parameter); 6] {
+    use palette::blend::Parameter as P;
+    [
+        (Op::Over, P::One, P::OneMinusSourceAlpha),
+        (Op::Inside, P::DestinationAlpha, P::Zero),
+        (Op::Outside, P::OneMinusDestinationAlpha, P::Zero),
+        (Op::Atop, P::DestinationAlpha, P::OneMinusSourceAlpha),
+        (Op::Xor, P::OneMinusDestinationAlpha, P::OneMinusSourceAlpha),
+        (Op::Screen, P::One, P::OneMinusSourceColor),
+    ]
+}
+
+/// One premultiplied tuple through `PreAlpha::blend_with(Equations::from_parameters(..))` for
+/// the preset spelling `op`, against the W3C model of `op`. Returns (transitions, traces).
+fn check_preset<T: Fl>(sp: &Spec<T>, sub: &str, op: Op, s: Px<T>, d: Px<T>, c: &mut Collector) -> (u64, u64) {
+    let Some(bwf) = sp.bw else { return (0, 0) };
+    let Some((_, ps, pd)) = presets().into_iter().find(|p| p.0 == op) else { return (0, 0) };
+    let f = Bw::Eq(palette::blend::Equations::from_parameters(ps, pd));
+    let t = tol::<T>();
+    let e = oracle::expected(Form::Pre, op, sp.n, &s.to64(), &d.to64(), 0.0);
+    let r = match pv::catch(|| bwf(Form::Pre, f, s, d)) {
+        Ok(r) => r.to64(),
+        Err(m) => {
+            c.violation(&format!("C08/equation-presets/{}/{}<{}>/panic", op.name(), sp.name, T::NAME), 1.0, || json!({"sub": "equation-presets", "type": sp.name, "float": T::NAME, "op": op.name(), "input": input_json("component", sp.n, &s, &d), "observed": {"panic": m}}));
+            return (1, 0);
+        }
+    };
+    let mut err = (r.a - e.alpha).abs();
+    for i in 0..sp.n {
+        err = err.max((r.c[i] - e.lo[i]).abs());
+    }
+    if err <= t {
+        c.ratio(sub, err / t, || json!({"op": op.name(), "input": input_json("component", sp.n, &s, &d)}));
+    } else {
+        c.violation(&format!("C08/equation-presets/{}/{}<{}>/value", op.name(), sp.name, T::NAME), if err.is_finite() { err } else { f64::INFINITY }, || {
+            json!({"sub": "equation-presets", "type": sp.name, "float": T::NAME, "op": op.name(), "fn": bw_json(&f), "input": input_json("component", sp.n, &s, &d), "input_values": {"source": s.c[0].to64(), "source_alpha": s.a.to64(), "destination": d.c[0].to64(), "destination_alpha": d.a.to64(), "colours_are": "premultiplied"}, "observed": {"color": fnum(r.c[0]), "alpha": fnum(r.a)}, "expected": {"w3c_premultiplied": e.lo[0], "alpha": e.alpha}, "tol": t})
+        });
+    }
+    c.outcome(pv::splitmix(r.c[0].to_bits() ^ r.a.to_bits().rotate_left(17)));
+    (1, 1 + sp.n as u64)
+}
+
+fn run_presets<T: Fl>(ctx: &Ctx, specs: &[Spec<T>], total: &mut Collector) {
+    let sub = format!("equation-presets/{}", T::NAME);
+    if !ctx.wants(&sub) {
+        return;
+    }
+    let lat = lattice::<T>(ctx.tier);
+    let tup = tuples(&lat, Form::Pre);
+    let (tup_r, sub_r) = (&tup, &sub);
+    let cc = pv::par::run_chunks(specs.len(), |si, c| {
+        let sp = &specs[si];
+        if sp.bw.is_none() {
+            return;
+        }
+        let (mut tr, mut tv) = (0u64, 0u64);
+        for (op, _, _) in presets() {
+            for &(s, d) in tup_r.iter() {
+                let (a, b) = check_preset(sp, sub_r, op, s, d, c);
+                tr += a;
+                tv += b;
+            }
+        }
+        c.add(sub_r, tup_r.len() as u64, tr, tv, tup_r.iter().filter(|(s, d)| nontrivial4([s.c[0], d.c[0], s.a, d.a])).count() as u64);
+    });
+    total.merge(cc);
+    total.exhaustive(&sub, true, "Equations::from_parameters spelling over/inside/outside/atop/xor (Fa, Fb) and screen (One, OneMinusSourceColor) via PreAlpha::blend_with × all premultiplied component tuples × the 5 Blend types, against the same W3C model");
+}
+
+/// DESIGN §3.2: report numeric literals of the anchored sources that the lattice does not know.
+fn scan_literals(c: &mut Collector) {
+    let repo = std::env::var("VERIF_REPO").unwrap_or_else(|_| "/repo".into());
+    let known = ["4.0", "12.0"];
+    let mut found = vec![];
+    for f in ["palette/src/blend/blend.rs", "palette/src/blend/compose.rs", "palette/src/blend.rs", "palette/src/macros/blend.rs"] {
+        let Ok(txt) = std::fs::read_to_string(format!("{repo}/{f}")) else {
+            c.note("literal-scan", json!(format!("{repo}/{f} not readable: scan skipped")));
+            return;
+        };
+        for line in txt.lines() {
+            let code = line.split("//").next().unwrap_or("");
+            let mut rest = code;
+            while let Some(p) = rest.find("from_f64(") {
+                let tail = &rest[p + 9..];
+                let lit: String = tail.chars().take_while(|ch| *ch != ')').collect();
+                if !known.contains(&lit.trim()) {
+                    c.warn(format!("{f}: numeric literal {lit} is not in C08's threshold list (¼ = 1/4.0, ½ via 2·x, 12.0): check that the lattice straddles any new branch"));
+                }
+                found.push(format!("{f}:{}", lit.trim()));
+                rest = &tail[lit.len()..];
+            }
+        }
+    }
+    c.note("literal-scan", json!({"from_f64 literals": found, "known": known, "comparisons are against T::zero()/T::one() after scaling by 2 and 4": true}));
+}
+
+/// The reference must reproduce hand-computed values of the W3C formulas (machinery check).
+fn oracle_selftest() -> Result<(), String> {
+    use oracle::b_w3c;
+    let cases: [(Op, f64, f64, f64); 16] = [
+        (Op::Multiply, 0.5, 0.25, 0.125),
+        (Op::Screen, 0.5, 0.25, 0.625),
+        (Op::Overlay, 0.25, 0.5, 0.25),   // backdrop dark: multiply(cs, 2cb)
+        (Op::Overlay, 0.75, 0.5, 0.75),   // backdrop light: screen(cs, 2cb−1) = .5 + .5 − .25
+        (Op::HardLight, 0.5, 0.25, 0.25), // source dark: multiply(cb, 2cs)
+        (Op::HardLight, 0.5, 0.75, 0.75),
+        (Op::Dodge, 0.25, 0.5, 0.5),
+        (Op::Dodge, 0.0, 1.0, 0.0),
+        (Op::Dodge, 0.5, 1.0, 1.0),
+        (Op::Burn, 0.75, 0.5, 0.5),
+        (Op::Burn, 1.0, 0.0, 1.0),
+        (Op::Burn, 0.5, 0.0, 0.0),
+        (Op::SoftLight, 0.5, 0.0, 0.25),
+        (Op::SoftLight, 0.25, 1.0, 0.5),
+        (Op::SoftLight, 0.16, 1.0, 0.398336),
+        (Op::Exclusion, 0.5, 0.25, 0.5),
+    ];
+    for (op, cb, cs, want) in cases {
+        let got = b_w3c(op, cb, cs);
+        if (got - want).abs() > 1e-12 {
+            return Err(format!("reference {}(cb={cb}, cs={cs}) = {got}, hand-computed {want}", op.name()));
+        }
+    }
+    // W3C simple alpha compositing example: source-over of 50% red over opaque blue, premultiplied
+    let e = oracle::expected(Form::Alpha, Op::Over, 3, &Px { c: [1.0, 0.0, 0.0], a: 0.5 }, &Px { c: [0.0, 0.0, 1.0], a: 1.0 }, 0.0);
+    if e.lo != [0.5, 0.0, 0.5] || e.alpha != 1.0 {
+        return Err(format!("reference source-over: {:?} α {}", e.lo, e.alpha));
+    }
+    Ok(())
+}
+
+fn parse_bits(v: &Value) -> Vec<u64> {
+    v.as_array().map(|a| a.iter().map(|x| u64::from_str_radix(x.as_str().unwrap_or("0").trim_start_matches("0x"), 16).unwrap_or(0)).collect()).unwrap_or_default()
+}
+
+fn replay_t<T: Fl>(specs: Vec<Spec<T>>, case: &Value, c: &mut Collector) {
+    let ty = case["type"].as_str().unwrap_or("");
+    let Some(sp) = specs.iter().find(|s| s.name == ty) else {
+        eprintln!("replay: unknown type {ty}");
+        std::process::exit(3)
+    };
+    let bits = parse_bits(&case["input"]);
+    let mut l = Local::default();
+    let sub = case["sub"].as_str().unwrap_or("");
+    let form = Form::from_name(case["form"].as_str().unwrap_or("pre")).unwrap_or(Form::Pre);
+    let op = Op::from_name(case["op"].as_str().unwrap_or("over")).unwrap_or(Op::Over);
+    let bad = || -> ! {
+        eprintln!("replay: malformed case");
+        std::process::exit(3)
+    };
+    match sub {
+        "component" | "colour" => {
+            let Some((s, d, level)) = input_from::<T>(sp.n, &bits) else { bad() };
+            check_pair(sp, level, "replay", form, op, s, d, c, &mut l, 0);
+            let r = pv::catch(|| sp.run(form, op, s, d));
+            let e = oracle::expected(form, op, sp.n, &s.to64(), &d.to64(), delta::<T>());
+            println!("{}<{}> {} {}: source {:?} α {:?}, backdrop {:?} α {:?}", sp.name, T::NAME, form.name(), op.name(), &s.c[..sp.n], s.a, &d.c[..sp.n], d.a);
+            println!("  observed {:?}", r.map(|r| (r.c[..sp.n].to_vec(), r.a)));
+            println!("  expected (premultiplied) lo {:?} hi {:?} alpha {}", &e.lo[..sp.n], &e.hi[..sp.n], e.alpha);
+        }
+        "identity" => {
+            let Some((s, d, _)) = input_from::<T>(sp.n, &bits) else { bad() };
+            let which = case["which"].as_str().unwrap_or("symmetry");
+            let which = IDENTITIES.into_iter().find(|w| *w == which).unwrap_or("symmetry");
+            check_identity(sp, "replay", which, form, op, s, d, c, &mut l);
+        }
+        "premultiply" => {
+            if bits.len() != 2 {
+                bad()
+            }
+            let route = case["route"].as_u64().unwrap_or(0) as usize;
+            let p = Px::grey(T::from_bits64(bits[0]), T::from_bits64(bits[1]));
+            check_premul(sp, "replay", route.min(4), p, c, &mut l);
+            println!("{}<{}> route {}: (c, α) = ({:?}, {:?}) -> {:?}", sp.name, T::NAME, PREMUL_ROUTES[route.min(4)], p.c[0], p.a, pv::catch(|| (sp.premul)(route.min(4), p)).map(|(a, b)| (a.c[0], a.a, b.c[0], b.a)));
+        }
+        "blend-with" => {
+            let Some((s, d, _)) = input_from::<T>(sp.n, &bits) else { bad() };
+            let Some(f) = bw_from(&case["fn"]) else { bad() };
+            check_bw(sp, "replay", form, f, s, d, c, &mut l);
+        }
+        "equation-presets" => {
+            let Some((s, d, _)) = input_from::<T>(sp.n, &bits) else { bad() };
+            check_preset(sp, "replay", op, s, d, c);
+        }
+        _ => bad(),
+    }
+}
+
 fn main() {
-    eprintln!("C08: check not built yet");
-    std::process::exit(3);
+    pv::main_guard(real_main)
+}
+
+fn real_main() -> i32 {
+    let (ctx, mode) = Ctx::from_args("C08");
+    if let Err(e) = oracle_selftest() {
+        eprintln!("MACHINERY-FAILURE: {e}");
+        return 3;
+    }
+    if let Mode::Replay(rep) = mode {
+        let mut c = Collector::new();
+        let case = &rep["case"];
+        if case["float"].as_str() == Some("f64") {
+            replay_t::<f64>(specs_f64(), case, &mut c);
+        } else {
+            replay_t::<f32>(specs_f32(), case, &mut c);
+        }
+        return ctx.finish_replay(c);
+    }
+    let mut total = Collector::new();
+    let (s32, s64) = (specs_f32(), specs_f64());
+    run_component(&ctx, &s32, &mut total);
+    run_component(&ctx, &s64, &mut total);
+    run_colour(&ctx, &s32, &mut total);
+    run_colour(&ctx, &s64, &mut total);
+    run_identity(&ctx, &s32, &mut total);
+    run_identity(&ctx, &s64, &mut total);
+    run_premul(&ctx, &s32, &mut total);
+    run_premul(&ctx, &s64, &mut total);
+    run_bw(&ctx, &s32, &mut total);
+    run_bw(&ctx, &s64, &mut total);
+    run_presets(&ctx, &s32, &mut total);
+    run_presets(&ctx, &s64, &mut total);
+    scan_literals(&mut total);
+    total.note("tolerance", json!(TOL_NOTE));
+    total.note("argument-roles", json!("palette self = W3C source (cs, αs); other = backdrop/destination (cb, αb); verified from blend_separable(src = self, dst = other), the docs of overlay/dodge/burn and BlendWith::blend_with(self, destination, ..)"));
+    ctx.finish(
+        total,
+        "model_checking",
+        "a state = one input tuple (source, backdrop, αs, αb as bit patterns) of one (colour type, float, input form); transitions = calls of Blend::*/Compose::*/BlendWith::blend_with/premultiply/unpremultiply on it; traces = result components and alphas compared with the f64 W3C model (value and range); non-trivial = tuples with at least one of the four values strictly inside (0,1) (colour level: the three slots do not all carry the same pair)",
+        &[
+            "palette's self is the W3C source and other the backdrop (read from blend_separable and the trait docs)",
+            "values are compared in premultiplied terms (the statement's formulas are for premultiplied colours); a straight-alpha result (Alpha<C>) is re-premultiplied with its own result alpha, its components are range-checked as returned",
+            "colour-dodge / colour-burn on PreAlpha inputs: palette must first divide c/α in the component type; the oracle accepts the hull of B over a ±4 eps box around the unpremultiplied inputs (both functions are monotone), exact quotients 0 and 1 stay exact",
+            "plus (W3C lighter, co = cs + cb, αo = αs + αb): the statement also requires results in [0,1]; palette clamps αo, so the expected colour is min(1, cs + cb) — cases with cs + cb > 1 have their own input class",
+            "premultiply round trip is required for alpha = 0 and for normal alpha > 0 down to MIN_POSITIVE (underflow of c·α below the normal range is allowed for as rounding)",
+        ],
+    )
 }
